@@ -25,6 +25,10 @@ def gen_case(r, idx):
     # numeric boundaries
     tree[b"bigids"] = Node("file", 0o600, uid=r.choice([2097151, 2097152, U32]), gid=r.choice([2097152, 0x7FFFFFFF]), data=[("bytes", b"x")],
                            mtime=r.choice([-1, -315622800, 8589934591, 8589934592, 0xFFFFFFFF, 0x100000000]))
+    # xattr value lengths around the points where the decimal length prefix of the PAX record sqfs2tar writes gains a digit
+    if dialect == "pax":
+        for L in r.sample([74, 75, 76, 973, 974, 975, 9972, 9973, 9974], 3):
+            tree[b"xlen%d" % L] = Node("file", 0o644, data=[("bytes", b"x")], xattrs={b"user.ka": b"v" * L, b"user.kb": b"w" * L})
     # sparse files with random hole layouts
     for k in range(2):
         segs = []
